@@ -176,6 +176,25 @@ fn main() {
             }
             std::process::exit(0);
         }
+        "c12_so3_centre" => {
+            // SO3StateSpace::new stores the cone centre as given: a zero or short quaternion is accepted, and the space it
+            // returns cannot be sampled (every candidate is at distance 2*acos(|dot|) > max_angle from such a centre)
+            for (name, c) in [("zero", SO3State::new(0.0, 0.0, 0.0, 0.0)), ("half-length", SO3State::new(0.0, 0.0, 0.0, 0.5))] {
+                match SO3StateSpace::new(Some((c.clone(), 1.0))) {
+                    Err(e) => println!("{} centre: constructor refused it ({})", name, e),
+                    Ok(sp) => {
+                        println!("{} centre: constructor returned a space; stored centre = {:?}, satisfies_bounds(centre) = {}", name, sp.bounds.0, sp.satisfies_bounds(&sp.bounds.0));
+                        let (tx, rx) = std::sync::mpsc::channel();
+                        std::thread::spawn(move || { let mut rng = rand::rng(); let r = sp.sample_uniform(&mut rng); let _ = tx.send(r.is_ok()); });
+                        match rx.recv_timeout(Duration::from_secs(3)) {
+                            Ok(ok) => println!("{} centre: sample_uniform returned ok={}", name, ok),
+                            Err(_) => println!("{} centre: sample_uniform on the returned 1 rad cone did not return within 3 s", name),
+                        }
+                    }
+                }
+            }
+            std::process::exit(0);
+        }
         "c08_empty_start" => {
             let (space, pd0) = mk((1.0, 5.0));
             let pd = Arc::new(ProblemDefinition { space: space.clone(), start_states: vec![], goal: pd0.goal.clone() });
